@@ -160,7 +160,7 @@ func runList(dir string, focus string, env *execEnv, caseStr string) (res *Sx, v
 func init() {
 	families["list"] = family{
 		gen: func(r *Rng, id int, tier string) *Sx {
-			cfg := &genCfg{anp: r.P(55), banp: true, pods: true, sameName: r.P(25), podPortsVary: true, namedOnIPPct: 8, maxNP: 4, maxWl: 5}
+			cfg := &genCfg{anp: r.P(55), banp: true, pods: true, sameName: r.P(25), podPortsVary: true, complementPct: 5, namedOnIPPct: 8, maxNP: 4, maxWl: 5}
 			w := genWorld(r, cfg)
 			return Ls(At("wcase"), Ai(int64(id)), w.Sx(), Ls(At("list"), At("-")))
 		},
